@@ -2,7 +2,7 @@
    (faithful models in PathJoinModel.v) against the C++17 path operations (PathJoinSpec.v).
    Argument strings are lists of non-zero bytes (`nonul`); NULL arguments are `None`. *)
 From Coq Require Import ZArith List Bool.
-From Zix Require Import PathJoinSpec PathJoinModel PathJoinProofs PathJoinProofsRel.
+From Zix Require Import PathJoinSpec PathJoinModel PathJoinProofs PathJoinProofsIter PathJoinProofsRel.
 Import ListNotations.
 Local Open Scope Z_scope.
 
@@ -50,6 +50,29 @@ Example join_example :
   join_text (Some [97]) (Some [47;98]) = Ok [47;98] /\
   join_text None (Some [98]) = Ok [98] /\ join_text (Some [97;47]) None = Ok [97;47].
 Proof. vm_compute. repeat split. Qed.
+
+(* ---- the element iterator (zix_path_begin / zix_path_next): after the root-directory element it
+   yields, one per step and in bounds, exactly the C++17 elements of the path — except that a path of
+   two or more separators only yields one extra empty element (`den s it es`: iterator `it` stands
+   on the first of the remaining elements `es`, its range being that element's text) *)
+Theorem iterator_yields_elements :
+  forall s : str, nonul s ->
+    (if has_root s
+     then path_begin s = Ok {| it_range := (0, 1); it_state := ROOT_DIRECTORY |}
+          /\ exists it, path_next s {| it_range := (0, 1); it_state := ROOT_DIRECTORY |} = Ok it
+                        /\ den s it (ielems s)
+     else exists it, path_begin s = Ok it /\ den s it (ielems s))
+    /\ ielems s = (if root_only_multi s then [[]] else elements s)
+    /\ (forall it x es, den s it (x :: es) -> exists it', path_next s it = Ok it' /\ den s it' es).
+Proof.
+  intros s N. split; [|split].
+  - destruct (has_root s) eqn:R.
+    + split; [exact (path_begin_rooted s R)|exact (next_after_root s N R)].
+    + exact (path_begin_unrooted s N R).
+  - exact (ielems_elements s).
+  - intros it x es D. exact (den_next s it x es N D).
+Qed.
+Print Assumptions iterator_yields_elements.
 
 (* ---- lexically_relative, full statements (no class excluded: the three defects found on the way
    were repaired in /repo by fix: commits fa9d91b, 2a6eff1, 769f60e and the model follows that code) *)
